@@ -23,8 +23,8 @@ import tomllib
 ROOT = os.path.dirname(os.path.dirname(os.path.abspath(__file__)))
 REPO = os.environ.get("VERIF_REPO", "/repo")
 VX = os.path.join(ROOT, "tools/vx/target/release/vx")
-WORK = os.path.join(ROOT, "work")
-HEADER = "use vstd::prelude::*;\nuse vstd::std_specs::ops::*;\nverus! {\n"
+WORK = os.environ.get("VERIF_WORK", os.path.join(ROOT, "work"))
+HEADER = "use vstd::prelude::*;\nuse vstd::std_specs::ops::*;\nuse std::collections::VecDeque;\nverus! {\n"
 FOOTER = "\n} // verus!\nfn main() {}\n"
 
 
@@ -87,7 +87,8 @@ def assemble(unit, workdir, canary=False, canary_loops=False):
             m = re.search(r"(?m)^@fn " + re.escape(imp["fn"]) + r"((?: -> \w+)?)[ \t]*\n(.*?)(?=^@fn |^@raw|\Z)", otxt, re.S)
             if not m:
                 raise Infra(f"{unit['name']}: contract of {imp['fn']} not found in {imp['unit']}")
-            txt = f"//@ contract of {imp['fn']} imported verbatim from unit {imp['unit']}\n@fn {imp['fn']} @assumed{m.group(1)}\n{m.group(2)}" + txt
+            tag = "" if imp.get("same_obligation") else " @assumed"
+            txt = f"//@ contract of {imp['fn']} imported verbatim from unit {imp['unit']}\n@fn {imp['fn']}{tag}{m.group(1)}\n{m.group(2)}" + txt
         contract_path = os.path.join(workdir, stem + ".contract.rs")
         with open(contract_path, "w") as f:
             f.write(txt)
